@@ -122,6 +122,7 @@ struct Buf {
     Elem* blk{nullptr};
     int n{0};
     int pad{0};
+    Elem* sp_front{nullptr}; // position of the shared "stream" of single-pass iterators into this buffer
     Buf(char const* nm, V const& init, int mode, int padn) : name{nm}, n{static_cast<int>(init.size())}, pad{mode == 0 ? 0 : padn}
     {
         auto total = static_cast<std::size_t>(n + 2 * pad);
@@ -373,39 +374,134 @@ auto rawp(Ra<T> const& i) -> T* { return i.ptr(); }
 template <typename T>
 auto rawp(OutT<T> const& i) -> T* { return i.p; }
 
-// policies: how a check obtains iterators of one kind into a buffer
+// truly single-pass input iterator (behaves like std::istream_iterator): all copies made from one range share the
+// position of the underlying "stream" (`*front`).  Incrementing any copy advances the stream; dereferencing or
+// incrementing a copy that the stream has already left (a second traversal, e.g. after a premature distance()) is latched.
+// `*it++` is valid for input iterators: the copy returned by post-increment may be dereferenced once (`grace`).
+inline bool g_second_pass = false;
+struct sp_tag : etl::input_iterator_tag { };
+template <typename T>
+struct SP {
+    using iterator_category = sp_tag;
+    using value_type        = std::remove_cv_t<T>;
+    using difference_type   = std::ptrdiff_t;
+    using pointer           = T*;
+    using reference         = T&;
+    T* p{nullptr};
+    T* lo{nullptr};
+    T* hi{nullptr};
+    T** front{nullptr};
+    bool grace{false};
+    SP() = default;
+    SP(T* p_, T* lo_, T* hi_, T** front_) : p{p_}, lo{lo_}, hi{hi_}, front{front_} { }
+    auto operator*() const -> reference
+    {
+        if (front != nullptr && p != *front && !grace) { g_second_pass = true; }
+        if (p < lo || p >= hi) {
+            vf::it::g_out_of_range = true;
+            static value_type dummy{};
+            return const_cast<reference>(static_cast<value_type const&>(dummy));
+        }
+        return *p;
+    }
+    auto operator->() const -> pointer { return &**this; }
+    auto operator++() -> SP&
+    {
+        if (front != nullptr && p != *front) { g_second_pass = true; }
+        if (p >= hi) { vf::it::g_out_of_range = true; }
+        ++p;
+        grace = false;
+        if (front != nullptr) { *front = p; }
+        return *this;
+    }
+    auto operator++(int) -> SP
+    {
+        auto t = *this;
+        ++*this;
+        t.grace = true;
+        return t;
+    }
+    friend auto operator==(SP const& a, SP const& b) -> bool { return a.p == b.p; }
+    friend auto operator!=(SP const& a, SP const& b) -> bool { return a.p != b.p; }
+};
+template <typename T>
+auto rawp(SP<T> const& i) -> T* { return i.p; }
+
+// policies: how a check obtains iterators of one kind into a buffer.  k1 / k2 / ko are the kinds used for the first
+// range, the second range and the output of a check; a plain policy uses itself for all three.
 struct KP { // raw pointers
     static constexpr char id = 'P';
+    using k1                 = KP;
+    using k2                 = KP;
+    using ko                 = KP;
     using it                 = Elem*;
     using out                = Elem*;
-    static auto mk(Elem* p, Elem* /*lo*/, Elem* /*hi*/) -> it { return p; }
-    static auto mko(Elem* p, Elem* /*lo*/, Elem* /*hi*/) -> out { return p; }
+    static auto mk(Buf& a, int i) -> it { return a.b() + i; }
+    static auto mko(Buf& a, int i) -> out { return a.b() + i; }
 };
 template <typename W, char Id>
 struct KW {
     static constexpr char id = Id;
+    using k1                 = KW;
+    using k2                 = KW;
+    using ko                 = KW;
     using it                 = W;
     using out                = Out;
-    static auto mk(Elem* p, Elem* lo, Elem* hi) -> it { return W{p, lo, hi}; }
-    static auto mko(Elem* p, Elem* lo, Elem* hi) -> out { return Out{p, lo, hi}; }
+    static auto mk(Buf& a, int i) -> it { return W{a.b() + i, a.b(), a.e()}; }
+    static auto mko(Buf& a, int i) -> out { return Out{a.b() + i, a.b(), a.e()}; }
 };
-using KI = KW<vf::it::In<Elem>, 'I'>;
+struct KI { // single-pass input iterators (output: write-only Out)
+    static constexpr char id = 'I';
+    using k1                 = KI;
+    using k2                 = KI;
+    using ko                 = KI;
+    using it                 = SP<Elem>;
+    using out                = Out;
+    static auto mk(Buf& a, int i) -> it
+    {
+        if (a.b() + i != a.e() || a.n == 0) { a.sp_front = a.b() + i; } // a new traversal starts where `first` is made
+        return it{a.b() + i, a.b(), a.e(), &a.sp_front};
+    }
+    static auto mko(Buf& a, int i) -> out { return Out{a.b() + i, a.b(), a.e()}; }
+};
 using KF = KW<vf::it::Fwd<Elem>, 'F'>;
 using KB = KW<vf::it::Bidi<Elem>, 'B'>;
 // forward wrapper whose category is the plain etl tag (namespace std is NOT associated): needed where an etl template
 // makes an unqualified call (remove_if.hpp calls `find_if(...)`), which ADL would otherwise make ambiguous with std::
 using KFE = KW<vf::it::Iter<Elem, etl::forward_iterator_tag>, 'F'>;
 using KR = KW<Ra<Elem>, 'R'>;
+// mixed categories: first range A, second range B, output O
+template <typename A, typename B, typename O, char Id>
+struct KM {
+    static constexpr char id = Id;
+    using k1                 = A;
+    using k2                 = B;
+    using ko                 = O;
+};
+using Kpi = KM<KP, KI, KP, 'a'>; // (pointer, single-pass) -> pointer
+using Kip = KM<KI, KP, KI, 'b'>; // (single-pass, pointer) -> Out
+using Kfi = KM<KF, KI, KF, 'c'>; // (forward, single-pass) -> Out
+using Kpf = KM<KP, KF, KF, 'd'>; // (pointer, forward)     -> Out
+using Kbp = KM<KB, KP, KP, 'e'>; // (bidirectional, pointer) -> pointer
+using Kfp = KM<KF, KP, KP, 'f'>; // (forward, pointer)
+using Kif = KM<KI, KF, KI, 'I'>; // find_first_of: (single-pass, forward); keeps the id 'I' of the plain input entry
+using Kpo = KM<KP, KP, KF, 'o'>; // pointer source(s), write-only Out destination
+using Kiq = KM<KI, KI, KP, 'q'>; // single-pass source(s), pointer destination
 
 template <typename K>
-auto at(Buf& a, int i) -> typename K::it
+auto at(Buf& a, int i) -> typename K::k1::it
 {
-    return K::mk(a.b() + i, a.b(), a.e());
+    return K::k1::mk(a, i);
 }
 template <typename K>
-auto oat(Buf& a, int i) -> typename K::out
+auto at2(Buf& a, int i) -> typename K::k2::it
 {
-    return K::mko(a.b() + i, a.b(), a.e());
+    return K::k2::mk(a, i);
+}
+template <typename K>
+auto oat(Buf& a, int i) -> typename K::ko::out
+{
+    return K::ko::mko(a, i);
 }
 template <typename It>
 auto off(Buf const& a, It const& i) -> int
@@ -427,12 +523,38 @@ struct Case {
     int pred{0};
     int val{0};
 };
+// keys 0..9 are written as a digit string ("-" = empty); sequences with a larger key as ",k,k,k"
 inline auto digits(std::vector<int> const& v) -> std::string
 {
     if (v.empty()) { return "-"; }
+    bool big = false;
+    for (int k : v) { big = big || k > 9 || k < 0; }
     std::string s;
-    for (int k : v) { s += static_cast<char>('0' + k); }
+    for (int k : v) {
+        if (big) {
+            s += "," + std::to_string(k);
+        } else {
+            s += static_cast<char>('0' + k);
+        }
+    }
     return s;
+}
+inline auto undigits(std::string const& t) -> std::vector<int>
+{
+    std::vector<int> v;
+    if (t.empty() || t == "-") { return v; }
+    if (t[0] == ',') {
+        std::size_t i = 1;
+        while (i <= t.size()) {
+            auto j = t.find(',', i);
+            if (j == std::string::npos) { j = t.size(); }
+            v.push_back(std::atoi(t.substr(i, j - i).c_str()));
+            i = j + 1;
+        }
+    } else {
+        for (char ch : t) { v.push_back(ch - '0'); }
+    }
+    return v;
 }
 inline auto show_case(Case const& c) -> std::string
 {
@@ -441,23 +563,41 @@ inline auto show_case(Case const& c) -> std::string
 }
 inline auto parse_case(std::string const& s, Case& c) -> bool
 {
-    char algo[64] = {0};
-    char it       = 'P';
-    char a[128]   = {0};
-    char b[128]   = {0};
-    int got       = std::sscanf(s.c_str(), "%63s it=%c pad=%d a=%127s b=%127s m=%d n=%d cmp=%d eq=%d pred=%d val=%d", algo, &it, &c.pad, a, b, &c.m, &c.n, &c.cmp, &c.eq, &c.pred, &c.val);
-    if (got != 11) { return false; }
-    c.algo = algo;
-    c.it   = it;
-    c.a.clear();
-    c.b.clear();
-    for (char const* p = a; *p != 0; ++p) {
-        if (*p != '-') { c.a.push_back(*p - '0'); }
+    std::istringstream is(s);
+    std::string tok;
+    if (!(is >> c.algo)) { return false; }
+    int seen = 0;
+    while (is >> tok) {
+        auto eqp = tok.find('=');
+        if (eqp == std::string::npos) { return false; }
+        auto k = tok.substr(0, eqp);
+        auto v = tok.substr(eqp + 1);
+        ++seen;
+        if (k == "it") {
+            c.it = v.empty() ? 'P' : v[0];
+        } else if (k == "pad") {
+            c.pad = std::atoi(v.c_str());
+        } else if (k == "a") {
+            c.a = undigits(v);
+        } else if (k == "b") {
+            c.b = undigits(v);
+        } else if (k == "m") {
+            c.m = std::atoi(v.c_str());
+        } else if (k == "n") {
+            c.n = std::atoi(v.c_str());
+        } else if (k == "cmp") {
+            c.cmp = std::atoi(v.c_str());
+        } else if (k == "eq") {
+            c.eq = std::atoi(v.c_str());
+        } else if (k == "pred") {
+            c.pred = std::atoi(v.c_str());
+        } else if (k == "val") {
+            c.val = std::atoi(v.c_str());
+        } else {
+            return false;
+        }
     }
-    for (char const* p = b; *p != 0; ++p) {
-        if (*p != '-') { c.b.push_back(*p - '0'); }
-    }
-    return true;
+    return seen == 10;
 }
 
 inline auto mk(std::vector<int> const& keys, int tagbase) -> V
@@ -530,6 +670,7 @@ struct Scope { // RAII: the etl call happens while a Scope is alive
         l.pcalls = 0;
         l.order.clear();
         vf::it::g_out_of_range = false;
+        g_second_pass          = false;
         l.active               = true;
     }
     ~Scope() { g().active = false; }
@@ -545,6 +686,7 @@ inline auto verdict(std::string const& etl_out, std::string const& std_out) -> s
     auto& l = g();
     if (!l.violation.empty()) { return "out of range: " + l.violation + "; etl gave " + etl_out + ", std gives " + std_out; }
     if (vf::it::g_out_of_range) { return "an iterator was moved or dereferenced outside the range passed; etl gave " + etl_out + ", std gives " + std_out; }
+    if (g_second_pass) { return "a single-pass input iterator was dereferenced or advanced after the range had already been traversed past it (second pass); etl gave " + etl_out + ", std gives " + std_out; }
     for (auto* b : l.bufs) {
         auto gd = b->guards();
         if (!gd.empty()) { return "out of range: " + gd + "; etl gave " + etl_out + ", std gives " + std_out; }
@@ -584,6 +726,7 @@ enum : unsigned {
     D_APART = 1U << 11, // a partitioned by the predicate (precondition)
     D_SMALL = 1U << 12, // enumerate a only up to length 3 (fixed-arity functions: min/max/clamp/iter_swap ...)
     D_HALVES = 1U << 13, // [0,m) and [m,len) each sorted by the comparator (inplace_merge precondition)
+    D_LONG  = 1U << 14, // additionally: random inputs around size thresholds (30..40, 63..66, 100, 127..130, 257)
 };
 using CheckFn = std::string (*)(Case const&);
 struct Entry {
@@ -660,6 +803,9 @@ inline void account(Entry const& e, Case const& c, bool random)
     if ((e.dims & D_N) != 0) { vf::label("n outside {0,len}", c.n != 0 && c.n != len); }
     if ((e.dims & (D_B | D_BSAME)) != 0) { vf::label("non-empty second range", !c.b.empty()); }
     vf::label("wrapper iterators (not raw pointers)", c.it != 'P');
+    vf::label("mixed iterator categories across the ranges", c.it >= 'a' && c.it <= 'z');
+    vf::label("long input (length >= 30, size-threshold classes)", len >= 30);
+    if ((e.dims & (D_B | D_BSAME)) != 0) { vf::label("second range / needle longer than 3", c.b.size() > 3); }
     vf::label("guarded buffer (pad=1) vs exact-size block (pad=0)", c.pad == 1);
     if (nt && (vf::stats().sub_evals[e.name] % 997) == 1) {
         vf::sample(e.name, [&] { return show_case(c); });
@@ -804,9 +950,11 @@ inline void shrink_random(Entry const& e, Case& c, std::string& detail)
 }
 
 // E1-style seeded random top-up: longer, duplicate-heavy inputs over keys 0..3; preconditions by construction
-inline void random_cases(vf::Ctx& ctx, Entry const& e, int count, int maxlen)
+// `longmode`: lengths around the size thresholds an implementation may switch strategy at (8/16 are inside the normal
+// random range; 32, 64, 128, 256 here), with few-distinct (2..4) or many-distinct (about len) keys
+inline void random_cases(vf::Ctx& ctx, Entry const& e, int count, int maxlen, bool longmode = false)
 {
-    vf::Rng rng(ctx.seed * 7919ULL + vf::fnv(std::string(e.name)) + static_cast<unsigned char>(e.it));
+    vf::Rng rng(ctx.seed * 7919ULL + vf::fnv(std::string(e.name)) + static_cast<unsigned char>(e.it) + (longmode ? 104729ULL : 0ULL));
     auto const dims = e.dims;
     for (int i = 0; i < count; ++i) {
         Case c;
@@ -814,15 +962,22 @@ inline void random_cases(vf::Ctx& ctx, Entry const& e, int count, int maxlen)
         c.it     = e.it;
         int nkey = 2 + static_cast<int>(rng.below(3)); // 2..4 distinct keys
         int len  = (dims & D_SMALL) != 0 ? static_cast<int>(rng.below(4)) : 6 + static_cast<int>(rng.below(static_cast<std::uint64_t>(maxlen - 5)));
+        if (longmode) {
+            auto w = rng.below(100);
+            len    = w < 35 ? static_cast<int>(rng.range(30, 40)) : w < 60 ? static_cast<int>(rng.range(63, 66)) : w < 75 ? 100 : w < 92 ? static_cast<int>(rng.range(127, 130)) : 257;
+            if (rng.below(2) == 0) { nkey = len; } // many distinct keys
+            maxlen = 2 * len;
+        }
         c.a.resize(static_cast<std::size_t>(len));
         for (auto& k : c.a) { k = static_cast<int>(rng.below(static_cast<std::uint64_t>(nkey))); }
         c.cmp  = (dims & D_CMP) != 0 ? static_cast<int>(rng.below(3)) : 0;
         c.pred = (dims & D_PRED) != 0 ? static_cast<int>(rng.below(4)) : 0;
         c.eq   = (dims & D_EQ) != 0 ? static_cast<int>(rng.below(3)) : ((dims & D_EQV) != 0 ? static_cast<int>(rng.below(2)) : 0);
         c.val  = (dims & D_VAL) != 0 ? static_cast<int>(rng.below(5)) : 0;
+        if ((dims & D_VAL) != 0 && nkey > 4 && rng.below(4) != 0) { c.val = static_cast<int>(rng.below(static_cast<std::uint64_t>(nkey + 1))); }
         c.m    = (dims & D_MID) != 0 ? static_cast<int>(rng.below(static_cast<std::uint64_t>(len + 1))) : 0;
         c.n    = (dims & D_N) != 0 ? static_cast<int>(rng.range(-1, len + 1)) : 0;
-        if ((dims & D_N) != 0 && rng.below(2) == 0) { c.n = static_cast<int>(rng.range(0, std::min(len, 4))); } // short runs / shifts are the interesting ones
+        if ((dims & D_N) != 0 && rng.below(2) == 0) { c.n = static_cast<int>(rng.range(0, std::min(len, 8))); } // short runs / shifts are the interesting ones
         auto by_cmp = [&](int x, int y) { return cmp_eval(c.cmp, x, y); };
         if ((dims & D_ASORT) != 0) { std::stable_sort(c.a.begin(), c.a.end(), by_cmp); }
         if ((dims & D_APART) != 0) { std::stable_partition(c.a.begin(), c.a.end(), [&](int k) { return pred_eval(c.pred, k); }); }
@@ -850,6 +1005,11 @@ inline void random_cases(vf::Ctx& ctx, Entry const& e, int count, int maxlen)
                     c.b.resize(rng.below(c.b.size()));
                 } else {
                     c.b.push_back(static_cast<int>(rng.below(static_cast<std::uint64_t>(nkey))));
+                }
+            } else if (how == 2 && len > 0) { // a random sub-sequence of a of length up to 8 (for sorted a: a sub-multiset, so includes() succeeds)
+                auto want = 1 + rng.below(8);
+                for (int k : c.a) {
+                    if (c.b.size() < want && rng.below(static_cast<std::uint64_t>(len)) < 2 * want) { c.b.push_back(k); }
                 }
             } else {
                 c.b.resize(rng.below(static_cast<std::uint64_t>(maxlen / 2)));
@@ -916,6 +1076,7 @@ inline void run_table(vf::Ctx& ctx)
         if ((e.dims & D_B) != 0 && (e.dims & (D_ASORT | D_BSORT)) == 0) { la = th ? 6 : 5; }
         enumerate(ctx, e, la, LB, LSAME);
         random_cases(ctx, e, th ? 20000 : 1500, 24);
+        if ((e.dims & D_LONG) != 0) { random_cases(ctx, e, th ? 2000 : 150, 24, true); }
     }
     vf::stats().exhaustive = true;
 }
